@@ -24,7 +24,7 @@ fn kx_m_constructors() {
     };
     // fresh buffers are in the inline-Vec form with front offset 0 and describe their whole allocation
     assert!(b.kind() == KIND_VEC && (b.data as usize) >> VEC_POS_OFFSET == 0 && b.len <= b.cap);
-    assert!(((b.data as usize) & ORIGINAL_CAPACITY_MASK) >> ORIGINAL_CAPACITY_OFFSET == 0); // capacity < 1 KiB
+    assert!(((b.data as usize) & REPR_MASK) >> ORIGINAL_CAPACITY_OFFSET == 0); // capacity < 1 KiB
     drop(b);
 }
 
